@@ -79,8 +79,6 @@ ShapesOfLen(k) == IF k = 0 THEN {<<>>}
 (* Go: the field names of one struct type are distinct *)
 DistinctNames(s) == \A i, j \in 1..Len(s) : i # j => s[i].name # s[j].name
 Shapes == UNION {{s \in ShapesOfLen(k) : DistinctNames(s)} : k \in 0..MaxFields}
-ShapeSeq == SetToSeq(Shapes)
-NShapes == Len(ShapeSeq)
 
 ParamTypes == {"P", "[]P", "*P"}
 IsGeneric(s) == \E i \in 1..Len(s) : s[i].typ \in ParamTypes
@@ -144,43 +142,54 @@ Salt(s) == SaltFrom(s, 1, U32(9059))
 ObfName(s, i) == <<Salt(s), s[i].name>>
 FieldNames(s) == [i \in 1..Len(s) |-> ObfName(s, i)]
 
-SaltOf == [k \in 1..NShapes |-> Salt(ShapeSeq[k])]
-ClosedOf == [k \in 1..NShapes |-> Closed(ShapeSeq[k])]
-
 (* ------------------------------------------------------------ state space: all unordered pairs *)
-VARIABLES i, j
-vars == <<i, j>>
-Init == i \in 1..NShapes /\ j \in i..NShapes
-Next == UNCHANGED vars
+ShapeSeq == SetToSeq(Shapes)
+NShapes == Len(ShapeSeq)
+
+(* i picks the first shape (initial states); the only action picks the second one,   *)
+(* j >= i: every invariant below is symmetric in the two shapes.                      *)
+\* (named ix/jx: TLC identifies state variables by name, and a bound variable called
+\* like a state variable makes a constant definition look state-dependent, which
+\* defeats the one-time evaluation of ShapeSeq)
+VARIABLES ix, jx
+vars == <<ix, jx>>
+Init == ix \in 1..NShapes /\ jx = 0
+Next == jx = 0 /\ jx' \in ix..NShapes /\ ix' = ix
 Spec == Init /\ [][Next]_vars
 
-S == ShapeSeq[i]
-T == ShapeSeq[j]
+(* per-shape data, evaluated once *)
+ClosedSeq == [k \in 1..NShapes |-> Closed(ShapeSeq[k])]
+CanonSeq == [k \in 1..NShapes |-> Canon(ShapeSeq[k])]
+SaltSeq == [k \in 1..NShapes |-> Salt(ShapeSeq[k])]
+NamesSeq == [k \in 1..NShapes |-> FieldNames(ShapeSeq[k])]
 
 IdenticalImpliesSameSalt ==
-  IdenticalIgnoringTags(ClosedOf[i], ClosedOf[j]) =>
-    /\ SaltOf[i] = SaltOf[j]
-    /\ \A k \in 1..Len(S) : <<SaltOf[i], S[k].name>> = <<SaltOf[j], T[k].name>>
+  jx = 0 \/ (IdenticalIgnoringTags(ClosedSeq[ix], ClosedSeq[jx]) =>
+               /\ SaltSeq[ix] = SaltSeq[jx]
+               /\ NamesSeq[ix] = NamesSeq[jx])
 
 (* an instantiation hashed directly (e.g. the anonymous struct{F Q} a generic function  *)
 (* returns, seen by a consumer as struct{F int}) gets the salt of its origin            *)
-OriginRule == SaltOf[i] = Salt(ClosedOf[i])
+OriginRule == jx # 0 \/ SaltSeq[ix] = Salt(ClosedSeq[ix])
 
-SpecIdentityRefines == Identical(ClosedOf[i], ClosedOf[j]) => IdenticalIgnoringTags(ClosedOf[i], ClosedOf[j])
+SpecIdentityRefines ==
+  jx = 0 \/ (Identical(ClosedSeq[ix], ClosedSeq[jx]) => IdenticalIgnoringTags(ClosedSeq[ix], ClosedSeq[jx]))
 
 (* the class key used by the exported table is sound and complete *)
-ClassKeySound == IdenticalIgnoringTags(ClosedOf[i], ClosedOf[j]) <=> (Canon(S) = Canon(T))
+ClassKeySound ==
+  jx = 0 \/ (IdenticalIgnoringTags(ClosedSeq[ix], ClosedSeq[jx]) <=> (CanonSeq[ix] = CanonSeq[jx]))
 
 (* ------------------------------------------------------------ table (B3) *)
-Row(k) == [id |-> k,
-           fields |-> ShapeSeq[k],
-           generic |-> IsGeneric(ShapeSeq[k]),
-           canon |-> Canon(ShapeSeq[k]),
-           salt |-> SaltOf[k]]
-Table == [names |-> [n \in NameTexts |-> [bytes |-> NameBytes[n], hash |-> HashString[n], exported |-> Exported(n)]],
+Row(sh, k) == [id |-> k,
+               fields |-> sh,
+               generic |-> IsGeneric(sh),
+               canon |-> CanonSeq[k],
+               salt |-> SaltSeq[k]]
+Table == LET seq == ShapeSeq IN
+         [names |-> [n \in NameTexts |-> [bytes |-> NameBytes[n], hash |-> HashString[n], exported |-> Exported(n)]],
           type_arg |-> TypeArg,
           hash_tags |-> HashTags,
           hash_types |-> HashTypes,
-          shapes |-> [k \in 1..NShapes |-> Row(k)]]
+          shapes |-> [k \in 1..Len(seq) |-> Row(seq[k], k)]]
 ASSUME TableFile = "" \/ JsonSerialize(TableFile, Table)
 =============================================================================
